@@ -139,7 +139,7 @@ def valid_request(rng, code):
 
 def hout(rng, code, fail_p=0.2):
     ok = rng.random() >= fail_p
-    s = "h=ok" if ok else "h=fail"
+    s = "h=ok" if ok else ("h=fail" + rng.choice(["", "", "", "I", "P", "S", "F", "M", "X"]))
     v = rng.choice([0, 1, 2, 0x100, 0xffff, 2**32 - 1, 2**63, 2**64 - 1, rng.getrandbits(64)])
     s += f",v={v:x}"
     if code == GET_CONFIG:
